@@ -380,6 +380,18 @@ def extras(ctx):
                     continue
                 if back is not member:
                     ctx.violation(f"enum over numbers {member!r}: lexical form {raw!r} of its value gives {back!r}", {"enum": repr(member), "literal": raw})
+    # xs:decimal is arbitrary precision: more significant digits than the decimal context of the interpreter holds (28)
+    for lex in ("1.00000000000000000000000000001", "12345678901234567890123456789012345", "-0.000000000000000000000000000000000001234567890123456789012345678901",
+                "+99999999999999999999999999999.99999999999999999999999999999", str(2 ** 100), "0.10000000000000000000000000000000000000"):
+        ctx.case(("decimal-precision", lex))
+        try:
+            back = converter.deserialize(lex, [Decimal])
+            again = converter.deserialize(converter.serialize(back), [Decimal])
+        except Exception as ex:  # noqa: BLE001
+            ctx.violation(f"decimal literal {lex!r} is refused: {type(ex).__name__}: {ex}", {"literal": lex})
+            continue
+        if back != Decimal(lex) or str(back.normalize()) != str(Decimal(lex).normalize()) or again != back:
+            ctx.violation(f"decimal literal {lex!r} gives {back!r} (written back and read again: {again!r}); xs:decimal assigns it {Decimal(lex)!r}", {"literal": lex})
     # SEVERAL enumerations in one candidate list (a union of enumerations): each is asked in the documented order, the first
     # that holds the value wins, a string candidate at the end takes what none of them holds
     for lex, types, want in (("7", [Zf, Zi], Zi.SEVEN), ("0.5", [Zi, Zf], Zf.HALF), ("0", [Zf, Zi], Zf.ZERO), ("0", [Zi, Zf], Zi.ZERO),
